@@ -120,6 +120,38 @@ def read_state(case, d, bks):
 RECOVERY_ADDR = (9, 3, 4)
 
 
+DRIVER_PID = [None]          # process id of the process whose stores were recorded (and cut short)
+
+
+def retry_store(case, d, bks):
+    """the restarted process (the same pid, as for a service in a container) stores the tiles of the interrupted batch again,
+    with a smaller image this time, on the post-crash directory d (with whatever the crash left there - temporary files
+    included), and reads them back: {address: bytes read}"""
+    b = bks[case['backend']]
+    out = {}
+    real_getpid = os.getpid
+    if DRIVER_PID[0] is None:
+        raise tlc.MachineryError('the recorded process did not tell its process id')
+    os.getpid = lambda: DRIVER_PID[0]
+    try:
+        for a, _p in case['batch']:
+            addr = tuple(a)
+            b.dir = d
+            c = b.new()
+            try:
+                try:
+                    B.op_store(c, addr + (None,), B.payload('s2'))
+                    out[addr] = B.op_load(c, addr + (None,))
+                except Exception as ex:
+                    out[addr] = ('EXC', repr(ex)[:200])
+            finally:
+                B.cleanup(c)
+                b.dir = None
+    finally:
+        os.getpid = real_getpid
+    return out
+
+
 def recovery_store(case, d, bks):
     """store one more tile through the real code on the post-crash directory d, then read everything back"""
     b = bks[case['backend']]
@@ -356,6 +388,9 @@ def run(ctx):
         per = {}
         cur = None
         for o in ops:
+            if o['op'] == 'mark' and o['n'].startswith('pid-'):
+                DRIVER_PID[0] = int(o['n'][4:])
+                continue
             if o['op'] == 'mark':
                 cur = o['n'][:-2] if o['n'].endswith('-b') else None
                 if cur:
@@ -427,6 +462,12 @@ def run(ctx):
                         rec = recovery_store(c, scratch, bks)
                         if rec is not None:
                             checks.append((' and after a further store of another tile', rec))
+                        retry = retry_store(c, scratch, bks)
+                        for addr, v in retry.items():
+                            if v != B.payload('s2'):
+                                ctx.violation({'kind': 'retry-store', 'backend': c['backend']},
+                                              '%s: crash %s: the restarted process stores tile %s again (a smaller image): it reads %s' % (
+                                                  cid, what, list(addr), describe(v)), {'case': c})
                     for suffix, got in checks:
                       for key, v in got.items():
                         if key == RECOVERY_ADDR:
